@@ -13,6 +13,8 @@
     conc <limit> <timeout_ms> <script> ...      -> conc value=<a> panic=<b> crash=<c> dropped=<d>
     prx <limit> <timeout_ms> <u|p> <script> ...  (same, through Proactors sharing the pool)
     script = `.` | <v|p|r><microseconds>,...
+    burst <limit> <timeout_ms> <u|p> <ring capacity> <jobs> <microseconds>  -> conc value=<jobs> panic=0 crash=0 dropped=0
+      (one Proactor, small ring, all jobs pushed without polling; the completion channel is unbounded in the model)
 -/
 import Compio.Model.Common
 import Compio.Model.AsyncifyPool
@@ -194,6 +196,12 @@ def step (m : Mode) (line : String) : Mode × String :=
   | "prx" :: l :: _t :: _drv :: scripts, _ =>
     match l.toNat?, allSome (scripts.map parseScript) with
     | some l, some sc => (m, concOp l sc)
+    | _, _ => (m, "bad-op")
+  | ["burst", l, _t, _drv, _cap, n, _dur], _ =>
+    -- the drivers' completion channel is unbounded in the model (`completed ++ [..]` never blocks a worker):
+    -- a burst pushed without polling completes entirely
+    match l.toNat?, n.toNat? with
+    | some l, some n => (m, concOp l [List.replicate n Kind.value])
     | _, _ => (m, "bad-op")
   | ["hist", l], _ =>
     match l.toNat? with
